@@ -85,8 +85,8 @@ let rb_line (line : string) : unit =
     let firsts = ref [] in
     List.iteri (fun i k ->
       if not !stuck then begin
-        List.iter (fun t -> Hashtbl.replace tags (tag_name t) ()) (insert_tags cmp !st.rb_tree k);
-        let r = if own then insert_owning cmp !st k else insert_chain cmp !st k in
+        List.iter (fun t -> Hashtbl.replace tags (tag_name t) ()) (rb_insert_tags cmp !st.rb_tree k);
+        let r = if own then rb_insert_owning cmp !st k else rb_insert_chain cmp !st k in
         match r with
         | None -> stuck := true
         | Some r ->
@@ -107,21 +107,78 @@ let rb_line (line : string) : unit =
       let firsts = List.rev !firsts in
       let found = Buffer.create 16 in
       List.iteri (fun i k ->
-        match find cmp t k with
+        match rb_find cmp t k with
         | Some x -> Buffer.add_char found (if x.serial = List.nth firsts i then '1' else 'x')
         | None -> Buffer.add_char found '0') keys;
       let probe = Buffer.create 16 in
-      List.iter (fun k -> Buffer.add_char probe (match find cmp t k with Some _ -> '1' | None -> '0')) probes;
+      List.iter (fun k -> Buffer.add_char probe (match rb_find cmp t k with Some _ -> '1' | None -> '0')) probes;
       let dash s = if s = "" then "-" else s in
-      let nodes = int_of_nat (size t) in
+      let nodes = int_of_nat (rb_size t) in
       Printf.printf "shape=%s size=%d nodes=%d parents=ok ret=%s fresh=%s found=%s probe=%s"
         (shape_str t) (int_of_z !st.rb_count) nodes
         (dash (String.concat "," (List.rev_map string_of_int !rets)))
         (dash (Buffer.contents fresh)) (dash (Buffer.contents found)) (dash (Buffer.contents probe));
       if steps then Printf.printf " steps=%s" (dash (Buffer.contents stepb));
-      Printf.printf " height=%d tags=%s\n" (int_of_nat (height t))
+      Printf.printf " height=%d tags=%s\n" (int_of_nat (rb_height t))
         (String.concat "," (List.sort compare (Hashtbl.fold (fun k () acc -> k :: acc) tags [])))
     end
+  | _ -> ()
+
+(* ------------------------------------------------------------------ *)
+(* scope mode (C07)                                                     *)
+(* ------------------------------------------------------------------ *)
+let parse_items (s : string) : (string * int * int) list =
+  if s = "-" then [] else
+  List.map (fun tok ->
+    match split_on ':' tok with
+    | [k; n; t] -> (k, int_of_string n, int_of_string t)
+    | [n; t] -> ("", int_of_string n, int_of_string t)
+    | _ -> failwith "bad item") (split_on ',' s)
+
+let join sep l = match l with [] -> "-" | _ -> String.concat sep l
+
+let scope_line (line : string) : unit =
+  match words line with
+  | ["het"; a] ->
+    let items = parse_items a in
+    let h = List.map (fun (_, n, t) -> (nat_of_int n, nat_of_int t)) items in
+    let s = scope_run h in
+    let n = List.length items in
+    let idx l = List.map (fun x -> string_of_int (int_of_nat x)) l in
+    let names = List.map (fun (_, n, _) -> string_of_int n) items in
+    let tys = List.map (fun (_, _, t) -> string_of_int t) items in
+    let masters = List.init n (fun i -> match scope_master s (nat_of_int i) with Some m -> string_of_int (int_of_nat m) | None -> "E") in
+    let declsets = List.init n (fun i -> match scope_decl_set s (nat_of_int i) with Some l -> join "+" (idx l) | None -> "E") in
+    let codes = List.concat (List.init 6 (fun j -> [j; 16 + j; 32 + j])) in
+    let lookups = List.init 10 (fun nm -> match scope_lookup s (nat_of_int nm) with Some _ -> "1" | None -> "0") in
+    let selects = List.concat (List.init 10 (fun nm ->
+      match scope_lookup s (nat_of_int nm) with
+      | None -> []
+      | Some _ -> List.filter_map (fun c ->
+          match scope_select s (nat_of_int nm) (nat_of_int c) with
+          | Some d -> Some (Printf.sprintf "%d:%d:%d" nm c (int_of_nat d)) | None -> None) codes)) in
+    Printf.printf "elements=%s types=%s sizes=%d/%d/%d names=%s dtypes=%s master=%s declset=%s lookup=%s select=%s\n"
+      (join "," (idx (scope_elements s))) (join "," (idx (scope_types s))) n n n (join "," names) (join "," tys)
+      (join "," masters) (join "," declsets) (join "" lookups) (join ";" selects)
+  | ["hom"; what; a] ->
+    let items = parse_items a in
+    let l = List.map (fun (_, n, t) -> (nat_of_int n, nat_of_int t)) items in
+    let hs = scope_h_run l in
+    let n = List.length items in
+    let ids = List.init n string_of_int in
+    let types = List.map (fun (_, _, t) -> if what = "enum" then "-1" else string_of_int t) items in
+    Printf.printf "elements=%s types=%s size=%d pos=%s master=%s declset=%s home=%s byname=%s\n"
+      (join "," ids) (join "," types) n
+      (join "," (List.map (fun d -> string_of_int (int_of_nat d.h_pos)) hs)) (join "," ids) (join "," ids)
+      (join "" (List.init n (fun _ -> "1")))
+      (* lookup by name then by type: the first member with that name, if its type matches *)
+      (join "," (List.mapi (fun i (_, nm, ty) ->
+         let rec first j = function
+           | [] -> None
+           | (_, nm', ty') :: r -> if (what = "base" && ty' = ty) || (what <> "base" && nm' = nm) then Some (j, ty') else first (j + 1) r in
+         match first 0 items with
+         | Some (j, ty') -> if what = "enum" || ty' = ty then string_of_int j else "notype"
+         | None -> "none") items))
   | _ -> ()
 
 let iter_lines f =
@@ -133,4 +190,5 @@ let iter_lines f =
 let () =
   match Sys.argv with
   | [| _; "rb" |] -> iter_lines rb_line
+  | [| _; "scope" |] -> iter_lines scope_line
   | _ -> prerr_endline "usage: model_driver <mode>"; exit 2
